@@ -8,9 +8,18 @@ usage: summarise_mech.py <mutant dir> <results.jsonl> [<results.jsonl> ...]
 import json, os, sys
 
 HERE = os.path.dirname(os.path.dirname(os.path.abspath(__file__)))
+GEN_CMD = "tools/gen_mech_mutants.py --seed 1"
 
 
 def main():
+    # optional leading "--tag X": second (third, ...) campaign, files get the suffix X
+    tag = ""
+    if sys.argv[1] == "--tag":
+        tag = sys.argv[2]
+        del sys.argv[1:3]
+    global GEN_CMD
+    if tag:
+        GEN_CMD = open(os.path.join(HERE, f"validation/mech/generator{tag}.txt")).read().strip()
     mdir = sys.argv[1]
     recs = {}
     for f in sys.argv[2:]:
@@ -19,7 +28,7 @@ def main():
             mid = os.path.basename(os.path.dirname(r["patch"]))
             # a later record (a re-run) replaces an earlier one
             recs[mid] = r
-    triage = json.load(open(os.path.join(HERE, "validation/mech/triage.json")))
+    triage = json.load(open(os.path.join(HERE, f"validation/mech/triage{tag}.json")))
     out = []
     for mid in sorted(recs):
         r = recs[mid]
@@ -32,7 +41,7 @@ def main():
                     "verdict": r["verdict"], "caught_by": r.get("caught_by", []), "errors": r.get("errors", []),
                     "first_violation": r.get("first_violation", "")[:300], "rerun": r.get("rerun", "")})
     os.makedirs(os.path.join(HERE, "validation/mech"), exist_ok=True)
-    with open(os.path.join(HERE, "validation/mech/results.jsonl"), "w") as f:
+    with open(os.path.join(HERE, f"validation/mech/results{tag}.jsonl"), "w") as f:
         for o in out:
             f.write(json.dumps(o) + "\n")
     n = len(out)
@@ -50,8 +59,8 @@ def main():
         c = triage.get(o["id"], ["untriaged", ""])[0]
         classes[c] = classes.get(c, 0) + 1
     L = []
-    L.append("# Mechanical mutant campaign\n")
-    L.append(f"{n} operator-level mutants of the integration / output / event code (`tools/gen_mech_mutants.py --seed 1`), each run through "
+    L.append(f"# Mechanical mutant campaign {tag or 1}\n")
+    L.append(f"{n} operator-level mutants of the integration / output / event code (`{GEN_CMD}`), each run through "
              "`cargo build`, the repository's own test suite, and then the claimed checks' quick tier in the order C03 C04 C05 C06 C08 C09 C10 C11 C12 C18 C19 "
              "until the first one fires (`tools/par_mutants.py --suite --first`).\n")
     L.append("| outcome | count |")
@@ -86,7 +95,7 @@ def main():
         ch = f"`{o['removed']}` -> `{o['added'] or '(deleted)'}`".replace("|", "\\|")
         L.append(f"| {o['id']} | {o['where']} | {ch} | {c} | {why.replace('|', chr(92) + '|')} |")
     L.append("")
-    open(os.path.join(HERE, "validation/mech/SUMMARY.md"), "w").write("\n".join(L) + "\n")
+    open(os.path.join(HERE, f"validation/mech/SUMMARY{tag}.md"), "w").write("\n".join(L) + "\n")
     print(f"{n} mutants: " + ", ".join(f"{k}={v}" for k, v in sorted(cnt.items())) + f"; survivors by class: {classes}")
 
 
